@@ -15,6 +15,21 @@
 
 using namespace mustache;
 
+#ifdef MUSTACHE_VERIF
+namespace mustache::verif {
+    void (*sched_hook)(int point, const void* dispatcher, unsigned thread_id, int arg) = nullptr;
+}
+#define MUSTACHE_VERIF_SCHED_AT(point, dispatcher, thread, arg) \
+    do { \
+        if (auto verif_hook_fn = ::mustache::verif::sched_hook) { \
+            verif_hook_fn(::mustache::verif::point, (dispatcher), (thread), (arg)); \
+        } \
+    } while (false)
+#else
+#define MUSTACHE_VERIF_SCHED_AT(point, dispatcher, thread, arg) do { } while (false)
+#endif
+#define MUSTACHE_VERIF_SCHED(point, thread, arg) MUSTACHE_VERIF_SCHED_AT(point, this, thread, arg)
+
 namespace {
     enum class JobState : uint8_t {
         kParallelQueue = 0u,
@@ -109,6 +124,21 @@ struct Dispatcher::Data {
         return thread_id;
     }
 
+#ifdef MUSTACHE_VERIF
+    // 0 = parallel queue, k + 1 = k-th serial queue
+    int verifQueueNumber(const JobQueue* queue) const noexcept {
+        if (queue == &parallel_jobs) {
+            return 0;
+        }
+        for (size_t i = 0; i < extra.array.size(); ++i) {
+            if (extra.array[i].get() == queue) {
+                return static_cast<int>(i) + 1;
+            }
+        }
+        return -1;
+    }
+#endif
+
 #define DOUBLE_LOCK 1
 
     void threadTask(ThreadId thread_id) noexcept {
@@ -118,7 +148,9 @@ struct Dispatcher::Data {
         g_thread_id = thread_id;
         JobQueue* queue = nullptr;
         while (!terminate) {
+            MUSTACHE_VERIF_SCHED(kWorkerBeforeLock, thread_id.toInt(), 0);
             std::unique_lock<std::mutex> lock{ mutex };
+            MUSTACHE_VERIF_SCHED(kWorkerAfterLock, thread_id.toInt(), 0);
 #if !DOUBLE_LOCK
             if(queue) {
                 queue->onTaskEnd();
@@ -128,11 +160,13 @@ struct Dispatcher::Data {
             {
                 MUSTACHE_PROFILER_BLOCK_LVL_3("Wait for job");
                 while (!terminate && !queue) {
+                    MUSTACHE_VERIF_SCHED(kWorkerBeforeWait, thread_id.toInt(), 0);
                     ++threads_waiting;
                     {
                         jobs_available.wait(lock);
                     }
                     --threads_waiting;
+                    MUSTACHE_VERIF_SCHED(kWorkerAfterWake, thread_id.toInt(), 0);
                     queue = findQueue();
                 }
             }
@@ -143,35 +177,55 @@ struct Dispatcher::Data {
             auto job = std::move(queue->front());
             queue->pop();
             queue->onTaskBegin();
+#ifdef MUSTACHE_VERIF
+            const int verif_queue = verifQueueNumber(queue);
+#endif
+            MUSTACHE_VERIF_SCHED(kWorkerPop, thread_id.toInt(), verif_queue);
             lock.unlock();
             {
                 MUSTACHE_PROFILER_BLOCK_LVL_3("Run task");
+                MUSTACHE_VERIF_SCHED(kTaskBegin, thread_id.toInt(), verif_queue);
                 job(thread_id);
+                MUSTACHE_VERIF_SCHED(kTaskEnd, thread_id.toInt(), verif_queue);
             }
 #if DOUBLE_LOCK
             lock.lock();
+            MUSTACHE_VERIF_SCHED(kWorkerRelocked, thread_id.toInt(), verif_queue);
             queue->onTaskEnd();
 #endif
         }
+        MUSTACHE_VERIF_SCHED(kWorkerExit, thread_id.toInt(), 0);
     }
 
     void wait(JobQueue& queue) {
         MUSTACHE_PROFILER_BLOCK_LVL_3("Wait queue");
+#ifdef MUSTACHE_VERIF
+        const unsigned verif_thread = currentThreadId().toInt();
+        // queues are created by the thread that also waits on them, so this lookup needs no lock
+        const int verif_queue = verifQueueNumber(&queue);
+#endif
         while (!terminate) {
+            MUSTACHE_VERIF_SCHED(kWaiterBeforeLock, verif_thread, verif_queue);
             std::unique_lock<std::mutex> lock{mutex};
+            MUSTACHE_VERIF_SCHED(kWaiterAfterLock, verif_thread, verif_queue);
             if (queue.isEmpty()) {
+                MUSTACHE_VERIF_SCHED(kWaiterEmpty, verif_thread, verif_queue);
                 break;
             }
             auto job = std::move(queue.front());
 
             queue.pop();
             queue.onTaskBegin();
+            MUSTACHE_VERIF_SCHED(kWaiterPop, verif_thread, verif_queue);
             lock.unlock();
             {
                 MUSTACHE_PROFILER_BLOCK_LVL_3("Run task");
+                MUSTACHE_VERIF_SCHED(kTaskBegin, verif_thread, verif_queue);
                 job(currentThreadId());
+                MUSTACHE_VERIF_SCHED(kTaskEnd, verif_thread, verif_queue);
             }
             lock.lock();
+            MUSTACHE_VERIF_SCHED(kWaiterRelocked, verif_thread, verif_queue);
             queue.onTaskEnd();
         }
         {
@@ -179,14 +233,17 @@ struct Dispatcher::Data {
             if (queue.state == JobState::kParallelQueue) {
                 const auto num_threads = threads.size();
                 while (threads_waiting != num_threads) {
+                    MUSTACHE_VERIF_SCHED(kWaiterSpin, verif_thread, verif_queue);
                     std::this_thread::yield();
                 }
             } else {
                 while (queue.isLocked()) {
+                    MUSTACHE_VERIF_SCHED(kWaiterSpin, verif_thread, verif_queue);
                     std::this_thread::yield();
                 }
             }
         }
+        MUSTACHE_VERIF_SCHED(kWaiterDone, verif_thread, verif_queue);
     }
 };
 
@@ -215,13 +272,18 @@ Dispatcher::~Dispatcher() {
     if(!data_) {
         return;
     }
+    MUSTACHE_VERIF_SCHED_AT(kShutdownBegin, data_.get(), 0u, 0);
     data_->terminate = true;
+    MUSTACHE_VERIF_SCHED_AT(kShutdownFlag, data_.get(), 0u, 0);
     clear();
+    MUSTACHE_VERIF_SCHED_AT(kShutdownCleared, data_.get(), 0u, 0);
     data_->jobs_available.notify_all();
+    MUSTACHE_VERIF_SCHED_AT(kShutdownNotified, data_.get(), 0u, 0);
     for (auto& thread : data_->threads)  {
         if (thread.joinable())
             thread.join();
     }
+    MUSTACHE_VERIF_SCHED_AT(kShutdownJoined, data_.get(), 0u, 0);
 }
 
 void Dispatcher::clear() noexcept {
@@ -241,14 +303,18 @@ void Dispatcher::addJob(Job&& job) {
 
     if(data_->single_thread_mode) {
         MUSTACHE_PROFILER_BLOCK_LVL_3("Run task");
+        MUSTACHE_VERIF_SCHED_AT(kSubmitInline, data_.get(), 0u, 0);
         job(ThreadId::make(0));
+        MUSTACHE_VERIF_SCHED_AT(kTaskEnd, data_.get(), 0u, 0);
         return;
     }
     {
         std::unique_lock<std::mutex> lock{ data_->mutex };
         data_->parallel_jobs.push(std::move(job));
+        MUSTACHE_VERIF_SCHED_AT(kSubmit, data_.get(), 0u, 0);
     }
     data_->jobs_available.notify_one();
+    MUSTACHE_VERIF_SCHED_AT(kSubmitNotified, data_.get(), 0u, 0);
 }
 
 Queue Dispatcher::createQueue(const std::string& name, int32_t priority) {
@@ -260,6 +326,7 @@ Queue Dispatcher::createQueue(const std::string& name, int32_t priority) {
     info->state = JobState::kUnlocked;
     data_->extra.by_name.emplace(name, index);
     data_->extra.by_priority.emplace(priority, index);
+    MUSTACHE_VERIF_SCHED_AT(kCreateQueue, data_.get(), 0u, static_cast<int>(index) + 1);
     Queue result;
     result.id_ = index;
     result.dispatcher_ = this;
@@ -271,8 +338,10 @@ void Dispatcher::async(QueueId queue_id, Job &&job) {
     {
         std::lock_guard<std::mutex> lock{data_->mutex};
         data_->extra.array[queue_id]->jobs.emplace(std::move(job));
+        MUSTACHE_VERIF_SCHED_AT(kSubmit, data_.get(), 0u, static_cast<int>(queue_id) + 1);
     }
     data_->jobs_available.notify_one();
+    MUSTACHE_VERIF_SCHED_AT(kSubmitNotified, data_.get(), 0u, static_cast<int>(queue_id) + 1);
 }
 
 void Dispatcher::waitQueue(QueueId queue_id) const noexcept {
